@@ -330,6 +330,40 @@ func Corpus() []CorpusFile {
 	return out
 }
 
+var iccCorpus []CorpusFile
+
+// ICCCorpus is a fixed set of generated files that all carry an ICC profile of
+// 300 to 5000 bytes (PNG, single- and multi-chunk JPEG, WebP): the operands of
+// C11's loader operations, where state shared between loads would hide.
+func ICCCorpus() []CorpusFile {
+	if iccCorpus != nil {
+		return iccCorpus
+	}
+	var out []CorpusFile
+	for i := 0; i < 12; i++ {
+		t := tape.New(tape.Mix(0x1CC, uint64(i)), nil)
+		size := []int{[]int{300, 3000, 5000, 1500}[i%4]}
+		var f *refmodel.File
+		switch i % 3 {
+		case 0:
+			p := refmodel.DrawPNG(t, 1, size, false)
+			p.BodyLen = 20
+			f = refmodel.BuildPNG(p)
+		case 1:
+			p := refmodel.DrawJPEG(t, 1, size, false, nil)
+			p.BodyLen = 20
+			f = refmodel.BuildJPEG(p)
+		default:
+			p := refmodel.DrawWebP(t, 2, 1, size, false)
+			p.BodyLen = 20
+			f = refmodel.BuildWebP(p)
+		}
+		out = append(out, CorpusFile{Name: fmt.Sprintf("icc%02d:%s", i, f.Truth.Format), Data: f.Bytes(), Fields: f.Truth.Fields, Gen: true})
+	}
+	iccCorpus = out
+	return out
+}
+
 func hex(b []byte, max int) string {
 	if len(b) > max {
 		return fmt.Sprintf("%x…(%d bytes)", b[:max], len(b))
